@@ -465,6 +465,9 @@ def heap_loops(fn, c):
     return out
 
 
+_LOOPVARS = {}
+
+
 def still_reachable_by_next_pass(p, s, ex, node):
     """a block released by a pass that is followed by another pass: can the next pass reach it again?  (a) p was read from a memory cell and the
     cell still holds p when the pass ends; (b) a local that the loop never assigns holds (a pointer derived from) p and the loop refers to it.
@@ -493,9 +496,13 @@ def still_reachable_by_next_pass(p, s, ex, node):
                         inside = isinstance(owner, tm.T) and any(x in rel_ for x in _ptr_subterms(owner))
                         if not moving and not inside:
                             return "the memory cell it was read from (%s) still holds it when the pass ends" % nm
-    ids, _ = ex.assigned_locals(node)
-    ids = set(ids) | set(x["id"] for x in A.walk(node) if x.get("kind") == "VarDecl" and "id" in x)        # declared in the loop: a new object every pass
-    refs = set(x["referencedDecl"].get("id") for x in A.walk(node) if x.get("kind") == "DeclRefExpr" and x.get("referencedDecl"))
+    ck = (id(node), _core.REPO)
+    if ck not in _LOOPVARS:
+        ids, _ = ex.assigned_locals(node)
+        ids = set(ids) | set(x["id"] for x in A.walk(node) if x.get("kind") == "VarDecl" and "id" in x)        # declared in the loop: a new object every pass
+        refs = set(x["referencedDecl"].get("id") for x in A.walk(node) if x.get("kind") == "DeclRefExpr" and x.get("referencedDecl"))
+        _LOOPVARS[ck] = (ids, refs, node)
+    ids, refs, _n = _LOOPVARS[ck]
     for did, v in s.locals.items():
         if did in ids or did not in refs or not isinstance(v, tm.T) or v.sort != "P":
             continue
